@@ -1,4 +1,80 @@
+/-
+Helper lemmas for C01: the entry points that are not covered by another property file never
+produce a fault, and the iterator's fuel is sufficient.
+-/
 import StunVerif.Spec.Builder
 import StunVerif.Lemmas.Parse
 namespace StunVerif
+
+theorem msgTypeFromBytes_no_fault (d : Bytes) (f : Fault) :
+    msgTypeFromBytes d ≠ .error (.fault f) := by
+  unfold msgTypeFromBytes
+  split
+  · split <;> intro h <;> cases h
+  · intro h; cases h
+
+theorem headerFromBytes_no_fault (d : Bytes) (f : Fault) :
+    headerFromBytes d ≠ .error (.fault f) := by
+  unfold headerFromBytes
+  split
+  · intro h; cases h
+  · cases ht : msgTypeFromBytes d with
+    | error e =>
+      intro h
+      have : e = .fault f := by
+        simp only [bind, Except.bind] at h
+        injection h
+      exact msgTypeFromBytes_no_fault d f (by rw [ht, this])
+    | ok ty =>
+      simp only [bind, Except.bind]
+      split <;> intro h <;> cases h
+
+theorem rawFromBytes_no_fault (d : Bytes) (f : Fault) : rawFromBytes d ≠ .error (.fault f) := by
+  unfold rawFromBytes
+  split
+  · simp only
+    split <;> intro h <;> cases h
+  · intro h; cases h
+
+theorem drop_paddedLen_length (a : RawAttr) (data : Bytes) (h : data ≠ []) :
+    (data.drop a.paddedLen).length < data.length := by
+  have hp := paddedLen_ge a
+  have : 0 < data.length := List.length_pos_iff.mpr h
+  rw [List.length_drop]
+  omega
+
+/-- any two amounts of fuel of at least the data length give the same iteration -/
+theorem iterGo_fuel_irrel (f1 : Nat) : ∀ (f2 : Nat) (data : Bytes) (seen lastMI : Bool),
+    data.length ≤ f1 → data.length ≤ f2 →
+    iterGo f1 data seen lastMI = iterGo f2 data seen lastMI := by
+  induction f1 with
+  | zero =>
+    intro f2 data seen lastMI h1 _
+    have : data = [] := List.length_eq_zero_iff.mp (by omega)
+    subst this
+    cases f2 <;> simp [iterGo]
+  | succ f1 ih =>
+    intro f2 data seen lastMI h1 h2
+    cases f2 with
+    | zero =>
+      have : data = [] := List.length_eq_zero_iff.mp (by omega)
+      subst this
+      simp [iterGo]
+    | succ f2 =>
+      unfold iterGo
+      by_cases he : data.isEmpty = true
+      · rw [if_pos he, if_pos he]
+      · rw [if_neg he, if_neg he]
+        cases hr : rawFromBytes data with
+        | error e => rfl
+        | ok a =>
+          simp only
+          have hne : data ≠ [] := by
+            intro h; subst h; simp at he
+          have hl := drop_paddedLen_length a data hne
+          have e : ∀ s l, iterGo f1 (data.drop a.paddedLen) s l =
+              iterGo f2 (data.drop a.paddedLen) s l :=
+            fun s l => ih f2 _ s l (by omega) (by omega)
+          simp only [e]
+
 end StunVerif
